@@ -6,6 +6,7 @@ import (
 	"sort"
 	"strings"
 	"sync"
+	"sync/atomic"
 
 	corev1 "k8s.io/api/core/v1"
 	"k8s.io/apimachinery/pkg/api/meta"
@@ -47,7 +48,13 @@ type VCluster struct {
 	NsHist        map[string][]map[string]string // namespace -> label sets over time (nil = deleted)
 	watches       []*filterWatch
 	WatchesOpened int
+	stalled       atomic.Bool // while set, open watches deliver nothing (an outage that ends with ExpireWatches)
 }
+
+// StallWatches makes every open watch silently drop what happens in the cluster (on=true) until it is
+// switched off again; together with ExpireWatches it models a watch outage that ends with 410 Gone:
+// the reflector relists and learns about deletions only from the difference to its store.
+func (vc *VCluster) StallWatches(on bool) { vc.stalled.Store(on) }
 
 func NewVCluster() *VCluster {
 	vc := &VCluster{Cluster: fake.NewFakeCluster(fake.ClusterVersionV127), History: map[string][]ObjState{}, NsHist: map[string][]map[string]string{}}
@@ -99,6 +106,7 @@ func NewVCluster() *VCluster {
 				}
 			}
 		}
+		fw.stall = &vc.stalled
 		vc.mu.Lock()
 		vc.watches = append(vc.watches, fw)
 		vc.WatchesOpened++
@@ -162,6 +170,7 @@ type filterWatch struct {
 	once   sync.Once
 	state  map[string]bool
 	inject chan watch.Event
+	stall  *atomic.Bool
 }
 
 func newFilterWatch(under watch.Interface, l labels.Selector, f fields.Selector) *filterWatch {
@@ -196,6 +205,9 @@ func (w *filterWatch) run() {
 		case ev, ok := <-w.under.ResultChan():
 			if !ok {
 				return
+			}
+			if w.stall != nil && w.stall.Load() {
+				continue
 			}
 			key := objKey(ev.Object)
 			prev := w.state[key]
